@@ -20,7 +20,7 @@ Proof.
 Qed.
 
 Lemma frame_of_no_panic : forall m, frame_of m <> FrPanic.
-Proof. intros [ | | | | mk len typ avail | |]; cbn [frame_of]; try discriminate. apply recv_msg_no_panic. Qed.
+Proof. intros [ | | | | | mk len typ avail | |]; cbn [frame_of]; try discriminate. apply recv_msg_no_panic. Qed.
 
 (* ---------------------------------------------------------------- invariant *)
 
